@@ -66,6 +66,11 @@ def scopes(chk):
               'ListNames': [], 'MathKinds': ['$', '\\['], 'MEnvNames': [], 'Leaves': [cmd0('big['), cmd0('right)'), cmd0('left['), cmd0('Bigg(')],
               'MaxSib': 3, 'MaxArgs': 1, 'MaxDepth': 2, 'ExtraQueries': ['frac', 'bigcup']})
     sc.append(('lookalikes', p))
+    # "$a$" directly followed by another "$"-opened region (valid LaTeX; the lexer reads "$$" greedily): known finding C12-adjacent-dollar
+    p = dict(common)
+    p.update({'Budget': 4, 'TextPool': ['t'], 'MathTextPool': ['x'], 'CmdNames': [], 'EnvNames': [], 'ListNames': [], 'MathKinds': ['$', '$$'], 'MEnvNames': [],
+              'Leaves': [], 'MaxSib': 3, 'MaxDepth': 2, 'DollarAdjacent': True, 'ExtraQueries': []})
+    sc.append(('adjacent-dollar', p))
     return sc
 
 
@@ -77,7 +82,9 @@ def run(chk):
                 'reproduces it and finds commands inside; each document is replayed on the real parser: exact text, abstract tree '
                 '(node kind, name, body) = oracle, search = oracle answer. A case is a document.')
     for label, pools in scopes(chk):
-        recs, p = D.generate(chk, label, pools, INV)
+        recs, p = D.generate(chk, label, pools, INV if not pools.get('DollarAdjacent') else [])
+        if pools.get('DollarAdjacent'):     # keep the documents that guard G5 would have excluded: an inline region directly followed by '$'
+            recs = [r for r in recs if '$$$$' not in from_atoms(r['i']) and ('x$$$x' in from_atoms(r['i']) or 'x$$x' in from_atoms(r['i']))]
         c01.replay_docs(chk, recs, p['UserSkipG'], check_doc, 'one math node of the right kind whose body is the enclosed source')
         for r in sorted(recs, key=lambda r: -len(r['i']))[:2]:
             chk.sample(from_atoms(r['i']))
